@@ -34,6 +34,7 @@ import (
 	"github.com/pkg/errors"
 	tally "github.com/uber-go/tally/v4"
 	"github.com/uber-go/tally/v4/internal/cache"
+	"github.com/uber-go/tally/v4/internal/verifhook"
 	customtransport "github.com/uber-go/tally/v4/m3/customtransports"
 	m3thrift "github.com/uber-go/tally/v4/m3/thrift/v2"
 	"github.com/uber-go/tally/v4/m3/thriftudp"
@@ -509,13 +510,17 @@ func (r *reporter) reportCopyMetric(
 	bucket string,
 	bucketID string,
 ) {
+	verifhook.At("m3r_inc")
 	r.pending.Inc()
 	defer r.pending.Dec()
+	defer verifhook.At("m3r_dec")
 
+	verifhook.At("m3r_done")
 	if r.done.Load() {
 		return
 	}
 
+	verifhook.At("m3r_now")
 	m.Timestamp = r.now.Load()
 
 	sm := sizedMetric{
@@ -526,6 +531,7 @@ func (r *reporter) reportCopyMetric(
 		bucketID: bucketID,
 	}
 
+	r.verifAtSelectSend()
 	select {
 	case r.metCh <- sm:
 	case <-r.donech:
@@ -534,30 +540,40 @@ func (r *reporter) reportCopyMetric(
 
 // Flush sends an empty sizedMetric to signal a flush.
 func (r *reporter) Flush() {
+	verifhook.At("m3f_inc")
 	r.pending.Inc()
 	defer r.pending.Dec()
+	defer verifhook.At("m3f_dec")
 
+	verifhook.At("m3f_done")
 	if r.done.Load() {
 		return
 	}
 
 	r.reportInternalMetrics()
+	r.verifAtMarkerSend()
 	r.metCh <- sizedMetric{}
 }
 
 // Close waits for metrics to be flushed before closing the backend.
 func (r *reporter) Close() (err error) {
+	verifhook.At("m3c_cas")
 	if !r.done.CAS(false, true) {
 		return errAlreadyClosed
 	}
 
 	// Wait for any pending reports to complete.
+	verifhook.At("m3c_spin")
 	for r.pending.Load() > 0 {
+		verifhook.At("m3c_spin")
 		runtime.Gosched()
 	}
 
+	verifhook.At("m3c_closedone")
 	close(r.donech)
+	verifhook.At("m3c_closemet")
 	close(r.metCh)
+	verifhook.At("m3c_wait")
 	r.wg.Wait()
 
 	return nil
@@ -587,7 +603,9 @@ func (r *reporter) process() {
 		bytes        int32
 	)
 
+	r.verifAtRecv()
 	for smet := range r.metCh {
+		verifhook.Log("m3p_got", int64(smet.size), int64(len(mets)), smet.bucketID)
 		flush := !smet.set && len(mets) > 0
 		if flush || bytes+smet.size > r.freeBytes {
 			r.numMetrics.Add(int64(len(mets)))
@@ -603,6 +621,7 @@ func (r *reporter) process() {
 		}
 
 		if !smet.set {
+			r.verifAtRecv()
 			continue
 		}
 
@@ -627,10 +646,12 @@ func (r *reporter) process() {
 
 		mets = append(mets, m)
 		bytes += smet.size
+		r.verifAtRecv()
 	}
 
 	// Final flush
 	r.flush(mets)
+	verifhook.At("m3p_exit")
 }
 
 func (r *reporter) flush(mets []m3thrift.Metric) []m3thrift.Metric {
@@ -644,6 +665,7 @@ func (r *reporter) flush(mets []m3thrift.Metric) []m3thrift.Metric {
 		Metrics:    mets,
 		CommonTags: r.commonTags,
 	})
+	verifhook.Log("m3p_emit", int64(len(mets)), 0, "")
 	if err != nil {
 		r.numWriteErrors.Inc()
 		// n.b. The client gives up on the first error without flushing; drop
